@@ -4,16 +4,17 @@ import PoxModel.Spec.OF10Table
 /-! Line-protocol driver for C04: runs the model (`Model/FlowMod.step`) and, separately, the specification
 (`Spec/OF10Table.step`) over one history.
 
-request  `{"now":ms,"max":n,"ops":[op…]}` with
-  `{"op":"fm","cmd":0..4,"m":rec,"cookie":n,"idle":n,"hard":n,"prio":n,"out_port":n,"flags":n,"acts":[act…]}`
+request  `{"now":ms,"max":n,"bufs":n,"cfg":[strictMutual,maskUndefined,statsUnwire],"ops":[op…]}` with
+  `{"op":"fm","cmd":n,"m":rec,"cookie":n,"idle":n,"hard":n,"prio":n,"out_port":n,"flags":n,"acts":[act…],"buf":n|null}`
   `{"op":"pkt","phdr":P,"port":n,"len":n}`   `{"op":"adv","dt":ms}`   `{"op":"sweep"}`
   `{"op":"fstats","m":rec,"out_port":n}`     `{"op":"astats","m":rec,"out_port":n}`
   `rec = [wildcards,in_port,dl_src,dl_dst,dl_vlan,dl_vlan_pcp,dl_type,nw_tos,nw_proto,nw_src,nw_dst,tp_src,tp_dst]`,
   `act = [0,port,max_len] | [1,kind,arg]`, `P` as in `Drivers/C03`.
-answer   `{"model":[{"outs":[out…],"table":[entry…]}… per step], "spec":[{"outs":[…],"flows":[…]}…]}`
+answer   `{"model":[{"outs":[out…],"table":[entry…],"pool":[0/1…]}… per step], "spec":[{"outs":[…],"flows":[…],"pool":[0/1…]}…]}`
   model entry `[priority, effective priority, rec of the match object, acts, cookie, flags, idle, hard, created, touched, packets, bytes]`
   spec flow   `[priority, rank, rec as transmitted, acts, cookie, flags, idle, hard, installed, lastUsed, packets, bytes]`
-  out: `{"k":"fr","m":rec,"cookie","prio","reason","ds","dn","idle","pk","by"}` | `{"k":"err","t","c"}` | `{"k":"pin","port"}`
+  out: `{"k":"fr","m":rec,"cookie","prio","reason","ds","dn","idle","pk","by"}` | `{"k":"err","t","c"}` | `{"k":"pin","port","bid"}`
+     | `{"k":"rel","id","len","port","acts"}`
      | `{"k":"fs","l":[[rec,ds,dn,prio,idle,hard,cookie,pk,by,acts]…]}` | `{"k":"as","pk","by","n"}` -/
 open Pox Pox.Proto Pox.OF Pox.FlowMod
 
@@ -69,14 +70,14 @@ def actJ : Action → J
 
 def cmdOf : Nat → Except String Cmd
   | 0 => pure .add | 1 => pure .modify | 2 => pure .modifyStrict | 3 => pure .delete | 4 => pure .deleteStrict
-  | n => bad s!"command {n} is outside the model"
+  | n => pure (.unknown n)
 
 def opOf (j : J) : Except String Op := do
   match ← j.string "op" with
   | "fm" =>
     pure (.flowMod { cmd := (← cmdOf (← j.nat "cmd")), mtch := (← recOf (← j.get "m")), cookie := (← j.nat "cookie"),
                      idle := (← j.nat "idle"), hard := (← j.nat "hard"), priority := (← j.nat "prio"), outPort := (← j.nat "out_port"),
-                     flags := (← j.nat "flags"), actions := (← (← j.array "acts").mapM actOf) })
+                     flags := (← j.nat "flags"), actions := (← (← j.array "acts").mapM actOf), bufferId := (← j.optNat "buf") })
   | "pkt" => pure (.packet (← phdrOf (← j.get "phdr")) (← j.nat "port") (← j.nat "len"))
   | "adv" => pure (.advance (← j.nat "dt"))
   | "sweep" => pure .sweep
@@ -89,7 +90,9 @@ def outJ : Out → J
       ("reason", J.ofNat m.reason), ("ds", J.ofNat m.durSec), ("dn", J.ofNat m.durNsec), ("idle", J.ofNat m.idle),
       ("pk", J.ofNat m.packets), ("by", J.ofNat m.bytes)]
   | .error t c => J.mk [("k", J.str "err"), ("t", J.ofNat t), ("c", J.ofNat c)]
-  | .packetIn p => J.mk [("k", J.str "pin"), ("port", J.ofNat p)]
+  | .packetIn p b => J.mk [("k", J.str "pin"), ("port", J.ofNat p), ("bid", J.ofOptNat b)]
+  | .release id f a => J.mk [("k", J.str "rel"), ("id", J.ofNat id), ("len", J.ofNat f.len), ("port", J.ofNat f.inPort),
+      ("acts", J.arr (a.map actJ))]
   | .flowStats l => J.mk [("k", J.str "fs"), ("l", J.arr (l.map fun f =>
       J.arr [recJ f.packed, J.ofNat f.durSec, J.ofNat f.durNsec, J.ofNat f.priority, J.ofNat f.idle, J.ofNat f.hard, J.ofNat f.cookie,
              J.ofNat f.packets, J.ofNat f.bytes, J.arr (f.actions.map actJ)]))]
@@ -100,7 +103,9 @@ def soutJ : Spec.SOut → J
       ("reason", J.ofNat m.reason), ("ds", J.ofNat m.durSec), ("dn", J.ofNat m.durNsec), ("idle", J.ofNat m.idle),
       ("pk", J.ofNat m.packets), ("by", J.ofNat m.bytes)]
   | .error t c => J.mk [("k", J.str "err"), ("t", J.ofNat t), ("c", J.ofNat c)]
-  | .packetIn p => J.mk [("k", J.str "pin"), ("port", J.ofNat p)]
+  | .packetIn p b => J.mk [("k", J.str "pin"), ("port", J.ofNat p), ("bid", J.ofOptNat b)]
+  | .release id f a => J.mk [("k", J.str "rel"), ("id", J.ofNat id), ("len", J.ofNat f.len), ("port", J.ofNat f.inPort),
+      ("acts", J.arr (a.map actJ))]
   | .flowStats l => J.mk [("k", J.str "fs"), ("l", J.arr (l.map fun f =>
       J.arr [recJ f.mtch, J.ofNat f.durSec, J.ofNat f.durNsec, J.ofNat f.priority, J.ofNat f.idle, J.ofNat f.hard, J.ofNat f.cookie,
              J.ofNat f.packets, J.ofNat f.bytes, J.arr (f.actions.map actJ)]))]
@@ -115,23 +120,30 @@ def flowJ (f : Spec.SFlow) : J :=
   J.arr [J.ofNat f.priority, J.ofNat f.rank, recJ f.mtch, J.arr (f.actions.map actJ), J.ofNat f.cookie, J.ofNat f.flags,
          J.ofNat f.idle, J.ofNat f.hard, J.ofNat f.installed, J.ofNat f.lastUsed, J.ofNat f.packets, J.ofNat f.bytes]
 
+def poolJ (p : BufPool.Pool BFrame) : J := J.ofNats (p.slots.map fun o => if o.isSome then 1 else 0)
+
 def runModel (s : State) : List Op → List J
   | [] => []
   | op :: ops =>
     let r := step s op
-    J.mk [("outs", J.arr (r.2.map outJ)), ("table", J.arr (r.1.table.map entryJ))] :: runModel r.1 ops
+    J.mk [("outs", J.arr (r.2.map outJ)), ("table", J.arr (r.1.table.map entryJ)), ("pool", poolJ r.1.pool)] :: runModel r.1 ops
 
 def runSpec (t : Spec.STable) : List Op → List J
   | [] => []
   | op :: ops =>
     let r := Spec.step t op
-    J.mk [("outs", J.arr (r.2.map soutJ)), ("flows", J.arr (r.1.flows.map flowJ))] :: runSpec r.1 ops
+    J.mk [("outs", J.arr (r.2.map soutJ)), ("flows", J.arr (r.1.flows.map flowJ)), ("pool", poolJ r.1.buffers)] :: runSpec r.1 ops
 
 def handle (j : J) : Except String J := do
   let ops ← (← j.array "ops").mapM opOf
   let now ← j.nat "now"
   let mx ← j.nat "max"
-  pure (J.mk [("model", J.arr (runModel (init now mx) ops)),
-              ("spec", J.arr (runSpec { flows := [], now := now, capacity := mx } ops))])
+  let mb ← j.nat "bufs"
+  let cfg : Cfg ← (do
+    match ← (← j.array "cfg").mapM J.asBool with
+    | [a, b, c] => pure { strictMutual := a, maskUndefined := b, statsUnwire := c }
+    | _ => bad "cfg: three booleans expected")
+  pure (J.mk [("model", J.arr (runModel (init cfg now mx mb) ops)),
+              ("spec", J.arr (runSpec { flows := [], now := now, capacity := mx, buffers := { slots := [], max := mb } } ops))])
 
 def main : IO Unit := serve handle
